@@ -813,6 +813,15 @@ class GK(G):
                         m2 = self.pick(lower)
                         body.append(("print", ("call", ("prop", ("self",), m2),
                                                [self.expr("num", 1) for _ in range(METHOD_ARITY[m2])])))
+            if self.chance(20):
+                # a handler later in the same method (after super calls, invokes, field accesses): whatever those left
+                # on the simulated stack shows in the depth the handler records
+                ev = self.fresh("he")
+                hv = self.fresh("hv")
+                body.append(("try", [("raise", ("call", ("var", "Error"), [("str", "h")]))],
+                             [(ev, None, [("print", ("prop", ("var", ev), "message"))])]))
+                body.append(("let", hv, ("num", 40.0)))
+                body.append(("print", ("var", hv)))
             ret = self.expr("num", 2)
             if not is_static and self.chance(12):
                 # a closure over self leaves the method
